@@ -117,12 +117,47 @@ def check(ix, rep):
     rep.analysed(pf)
     src = ast.unparse(pf.node)
     loops = [s for s in pf.node.body if isinstance(s, ast.For)]
-    ok = len(loops) >= 2 and 'ast.specs' in ast.unparse(loops[0].iter) and 'ast.specs' in ast.unparse(loops[1].iter) \
-        and any(isinstance(s, ast.Assign) and ast.unparse(s.targets[0]) == 'ast.specs' for s in pf.node.body)
-    if ok:
-        rep.ok('R-DELAY', pf.module.rel, pf.qual, 'pastify-driver', 'horizons first, then every spec rewritten, in order', pf.node.lineno)
+    # iterations over the specs: for-loops and comprehensions (the comprehension node stands for its own loop)
+    iters = []      # (node whose body is walked, iteration variable)
+    for x in ast.walk(pf.node):
+        if isinstance(x, ast.For) and isinstance(x.target, ast.Name) and 'ast.specs' in ast.unparse(x.iter):
+            iters.append((x, x.target.id))
+        elif isinstance(x, (ast.ListComp, ast.DictComp)) and len(x.generators) == 1 and isinstance(x.generators[0].target, ast.Name) \
+                and 'ast.specs' in ast.unparse(x.generators[0].iter) and not x.generators[0].ifs:
+            iters.append((x, x.generators[0].target.id))
+
+    def _rewrite_of(e, var):
+        return isinstance(e, ast.Call) and D._self_call(e) == 'visit' and len(e.args) >= 2 and isinstance(e.args[0], ast.Name) and e.args[0].id == var
+    # the rewritten specs, in the order of ast.specs, become ast.specs
+    in_order = False
+    assigned = [st for st in ast.walk(pf.node) if isinstance(st, ast.Assign) and len(st.targets) == 1 and ast.unparse(st.targets[0]) == 'ast.specs']
+    for st in assigned:
+        v = st.value
+        cands = [v]
+        if isinstance(v, ast.Name):
+            cands = [d_.value for d_ in ast.walk(pf.node) if isinstance(d_, ast.Assign) and len(d_.targets) == 1 and isinstance(d_.targets[0], ast.Name)
+                     and d_.targets[0].id == v.id]
+        for c_ in cands:
+            if isinstance(c_, ast.ListComp) and any(c_ is it_ for it_, _ in iters) and _rewrite_of(c_.elt, c_.generators[0].target.id):
+                in_order = True
+            if isinstance(c_, ast.List) and not c_.elts and isinstance(v, ast.Name):
+                # built by append in a loop over the specs: every iteration appends the rewrite of its spec (directly or through a local)
+                for lp, var in iters:
+                    if not isinstance(lp, ast.For):
+                        continue
+                    apps = [q for q in lp.body if isinstance(q, ast.Expr) and isinstance(q.value, ast.Call) and isinstance(q.value.func, ast.Attribute)
+                            and q.value.func.attr == 'append' and isinstance(q.value.func.value, ast.Name) and q.value.func.value.id == v.id]
+                    if len(apps) == 1 and apps[0].value.args:
+                        a0 = apps[0].value.args[0]
+                        if isinstance(a0, ast.Name):
+                            ds = [q.value for q in lp.body if isinstance(q, ast.Assign) and len(q.targets) == 1 and isinstance(q.targets[0], ast.Name) and q.targets[0].id == a0.id]
+                            a0 = ds[-1] if ds else a0
+                        if _rewrite_of(a0, var):
+                            in_order = True
+    if in_order:
+        rep.ok('R-DELAY', pf.module.rel, pf.qual, 'pastify-driver', 'every spec is rewritten and the rewritten specs replace ast.specs in the same order', pf.node.lineno)
     else:
-        rep.fail('R-DELAY', pf.module.rel, pf.qual, 'pastify-driver', 'pastify() does not compute the horizons of all specs and rewrite them in order', pf.node.lineno)
+        rep.fail('R-DELAY', pf.module.rel, pf.qual, 'pastify-driver', 'pastify() does not replace ast.specs by the rewritten specs, one per spec and in the same order', pf.node.lineno)
     # ... and each with its *own* look-ahead: the delay of assertion s is h(s), whatever else is in the forest (a sub-specification with a
     # longer look-ahead that the output does not use must not delay the output)
     hname = None
@@ -149,23 +184,28 @@ def check(ix, rep):
             return False
         # D[specvar] with D filled per spec in an earlier loop over the specs
         if isinstance(e, ast.Subscript) and isinstance(e.value, ast.Name) and isinstance(e.slice, ast.Name) and e.slice.id == specvar:
-            for lp in loops:
-                if lp is loop or not isinstance(lp.target, ast.Name):
+            for lp, lpvar in iters:
+                if lp is loop:
+                    continue
+                if isinstance(lp, ast.DictComp):
+                    # D = {spec: h.visit(spec, ..) for spec in ast.specs}
+                    bound = [x for x in ast.walk(pf.node) if isinstance(x, ast.Assign) and x.value is lp and len(x.targets) == 1 and isinstance(x.targets[0], ast.Name)
+                             and x.targets[0].id == e.value.id]
+                    if bound and isinstance(lp.key, ast.Name) and lp.key.id == lpvar and _is_own_horizon(lp.value, lpvar, lp, depth + 1):
+                        return True
                     continue
                 for x in ast.walk(lp):
                     if isinstance(x, ast.Assign) and len(x.targets) == 1 and isinstance(x.targets[0], ast.Subscript) and isinstance(x.targets[0].value, ast.Name) \
-                            and x.targets[0].value.id == e.value.id and isinstance(x.targets[0].slice, ast.Name) and x.targets[0].slice.id == lp.target.id:
-                        if _is_own_horizon(x.value, lp.target.id, lp, depth + 1):
+                            and x.targets[0].value.id == e.value.id and isinstance(x.targets[0].slice, ast.Name) and x.targets[0].slice.id == lpvar:
+                        if _is_own_horizon(x.value, lpvar, lp, depth + 1):
                             return True
         return False
     nown = 0
-    for lp in loops:
-        if not isinstance(lp.target, ast.Name):
-            continue
+    for lp, lpvar in iters:
         for c in ast.walk(lp):
-            if isinstance(c, ast.Call) and D._self_call(c) == 'visit' and len(c.args) >= 2 and isinstance(c.args[0], ast.Name) and c.args[0].id == lp.target.id:
+            if isinstance(c, ast.Call) and D._self_call(c) == 'visit' and len(c.args) >= 2 and isinstance(c.args[0], ast.Name) and c.args[0].id == lpvar:
                 nown += 1
-                if _is_own_horizon(c.args[1], lp.target.id, lp):
+                if _is_own_horizon(c.args[1], lpvar, lp):
                     rep.ok('R-DELAY', pf.module.rel, pf.qual, 'pastify-driver:own-horizon', 'every assertion is rewritten with the look-ahead computed for that assertion', c.lineno)
                 else:
                     rep.fail('R-DELAY', pf.module.rel, pf.qual, 'pastify-driver:own-horizon', 'the look-ahead handed to the rewrite of an assertion (`%s`) is not the horizon computed for '
